@@ -1,0 +1,16 @@
+//go:build verif
+// +build verif
+
+package main
+
+// verifHook is set by verification drivers (build tag verif) to observe, and to hold a
+// worker at, the steps of its loop: "Top" (an iteration is over, the receive buffer is
+// about to be returned), "Deq" (a datagram was taken from the queue), "Dec" (decoded),
+// "Mar" (encoded, about to be queued for the producer). It is nil otherwise.
+var verifHook func(ev string, proto string, body []byte, payload []byte)
+
+func vhook(ev string, proto string, body []byte, payload []byte) {
+	if h := verifHook; h != nil {
+		h(ev, proto, body, payload)
+	}
+}
